@@ -32,13 +32,13 @@ type World struct {
 	genericPost   []func(*Frame, *State, *Contract, *Scope)
 	caseHooks     []func(*Frame, *State, *Contract) []namedCase
 	caseFactHooks []func(*Frame, *State, *Contract, string)
-	knownCases  map[string][]string // function -> input classes of its known findings
-	externOld    map[string]bool   // extern methods whose reference results existed before the call
-	externHavoc  map[string]bool   // extern functions that may write any memory (treated as unknown code)
-	externPure   map[string]bool   // extern methods whose result is a function of receiver and arguments (getters)
-	externFresh  map[string]bool   // extern methods whose reference results are fresh allocations
-	externFrames map[string]string // interface methods of components outside the verified code (assumed frame-only)
-	knownLane   map[string][]string // function -> per-lane input classes (vector handlers)
+	knownCases    map[string][]string // function -> input classes of its known findings
+	externOld     map[string]bool     // extern methods whose reference results existed before the call
+	externHavoc   map[string]bool     // extern functions that may write any memory (treated as unknown code)
+	externPure    map[string]bool     // extern methods whose result is a function of receiver and arguments (getters)
+	externFresh   map[string]bool     // extern methods whose reference results are fresh allocations
+	externFrames  map[string]string   // interface methods of components outside the verified code (assumed frame-only)
+	knownLane     map[string][]string // function -> per-lane input classes (vector handlers)
 	stats         struct{ unrolled, cut, feasQueries, pruned int }
 	inlined       map[string]bool
 	assumedSet    map[string]bool
@@ -154,6 +154,7 @@ func (w *World) loopInfo(fn *ssa.Function) *LoopInfo {
 }
 
 func (w *World) noteInlined(k string) { w.mu.Lock(); w.inlined[k] = true; w.mu.Unlock() }
+
 // externKey resolves an extern declaration for a call made while verifying a function of package
 // scope (package-local declaration first, then the global ones).
 func (w *World) externKey(scope, name string) (string, bool) {
